@@ -84,7 +84,8 @@ fn normalise(msg: &str) -> String {
             if !out.ends_with('#') {
                 out.push('#');
             }
-        } else if ch == '\n' {
+        } else if ch == '\n' || ch == '`' || ch == '\'' || ch == '"' {
+            // quoted payloads are input dependent
             break;
         } else {
             out.push(ch);
@@ -242,10 +243,16 @@ pub struct Worker {
     child: Child,
     stdin: ChildStdin,
     stdout: BufReader<ChildStdout>,
+    /// tail of the worker's stderr, drained by a helper thread (the parser prints its
+    /// diagnostics there; an undrained pipe would block the worker)
+    stderr_tail: std::sync::Arc<std::sync::Mutex<Vec<u8>>>,
+    drain: Option<std::thread::JoinHandle<()>>,
     pub restarts: usize,
 }
 
-fn spawn_worker() -> (Child, ChildStdin, BufReader<ChildStdout>) {
+type Spawned = (Child, ChildStdin, BufReader<ChildStdout>, std::sync::Arc<std::sync::Mutex<Vec<u8>>>, std::thread::JoinHandle<()>);
+
+fn spawn_worker() -> Spawned {
     let exe = std::env::current_exe().expect("current exe");
     let mut child = Command::new(exe)
         .arg("worker")
@@ -257,26 +264,47 @@ fn spawn_worker() -> (Child, ChildStdin, BufReader<ChildStdout>) {
         .expect("spawn worker");
     let stdin = child.stdin.take().unwrap();
     let stdout = BufReader::new(child.stdout.take().unwrap());
-    (child, stdin, stdout)
+    let mut stderr = child.stderr.take().unwrap();
+    let tail = std::sync::Arc::new(std::sync::Mutex::new(Vec::new()));
+    let tail2 = tail.clone();
+    let drain = std::thread::spawn(move || {
+        let mut buf = [0u8; 8192];
+        loop {
+            match stderr.read(&mut buf) {
+                Ok(0) | Err(_) => break,
+                Ok(n) => {
+                    let mut t = tail2.lock().unwrap();
+                    t.extend_from_slice(&buf[..n]);
+                    if t.len() > 16384 {
+                        let cut = t.len() - 8192;
+                        t.drain(..cut);
+                    }
+                }
+            }
+        }
+    });
+    (child, stdin, stdout, tail, drain)
 }
 
 impl Worker {
     pub fn new() -> Worker {
-        let (child, stdin, stdout) = spawn_worker();
-        Worker { child, stdin, stdout, restarts: 0 }
+        let (child, stdin, stdout, stderr_tail, drain) = spawn_worker();
+        Worker { child, stdin, stdout, stderr_tail, drain: Some(drain), restarts: 0 }
     }
 
     fn restart(&mut self) -> String {
         let _ = self.child.kill();
-        let mut err = String::new();
-        if let Some(mut e) = self.child.stderr.take() {
-            let _ = e.read_to_string(&mut err);
-        }
         let _ = self.child.wait();
-        let (child, stdin, stdout) = spawn_worker();
+        if let Some(d) = self.drain.take() {
+            let _ = d.join();
+        }
+        let err = String::from_utf8_lossy(&self.stderr_tail.lock().unwrap()).to_string();
+        let (child, stdin, stdout, tail, drain) = spawn_worker();
         self.child = child;
         self.stdin = stdin;
         self.stdout = stdout;
+        self.stderr_tail = tail;
+        self.drain = Some(drain);
         self.restarts += 1;
         err
     }
